@@ -24,6 +24,7 @@ NUMERIC_INF_OR_NAN = frozenset(('INF', '-INF', '+INF', 'NaN'))
 INVALID_NUMERIC = frozenset(
     ('inf', '+inf', '-inf', 'nan', 'infinity', '+infinity', '-infinity')
 )
+FLOAT_NUMERAL = re.compile(r'^[+-]?(?:[0-9]+(?:\.[0-9]*)?|\.[0-9]+)(?:[Ee][+-]?[0-9]+)?$')
 
 MathArgType = Union[SupportsFloat, SupportsIndex]
 FloatArgType = Union[SupportsFloat, SupportsIndex, str]
@@ -287,7 +288,8 @@ def get_double(value: FloatArgType, xsd_version: str | None = None) -> float:
         if value in NUMERIC_INF_OR_NAN and (xsd_version != '1.0' or value != '+INF'):
             if value == 'NaN':
                 return math.nan  # for NaN use the predefined instance to keep identity
-        elif value.lower() in INVALID_NUMERIC:
+        elif value.lower() in INVALID_NUMERIC or FLOAT_NUMERAL.match(value) is None:
+            # float() accepts more than the XSD lexical space ('1_0', '+nan', 'Infinity')
             raise ValueError(f'invalid value {value!r} for xs:double/xs:float')
     elif math.isnan(value):
         return math.nan
